@@ -306,7 +306,7 @@ func c08Diff(a, b string) string {
 
 // c08RacePass builds cmd/racer with -race from the checker's own module and runs it.
 func c08RacePass(r *report.Run) string {
-	mcDir := filepath.Join(report.Root, "mc")
+	mcDir := report.McDir()
 	if _, err := os.Stat(filepath.Join(mcDir, "cmd", "racer")); err != nil {
 		return "skipped: checker sources not found at " + mcDir
 	}
@@ -368,7 +368,7 @@ func libraryImportsSync() bool {
 	root := "/repo"
 	if r := os.Getenv("VERIF_REPO"); r != "" {
 		root = r
-	} else if b, err := os.ReadFile(filepath.Join(report.Root, "mc", "go.mod")); err == nil {
+	} else if b, err := os.ReadFile(filepath.Join(report.McDir(), "go.mod")); err == nil {
 		for _, line := range strings.Split(string(b), "\n") {
 			if strings.HasPrefix(strings.TrimSpace(line), "replace github.com/antonmedv/expr =>") {
 				f := strings.Fields(line)
